@@ -140,6 +140,33 @@ func genC04(t *rapid.T) *C04Case {
 	default:
 		a = GenWorld(t, GenCfg{NoNamedRisk: true})
 	}
+	if len(a.Workloads) >= 2 && len(a.ANPs) == 0 && rapid.IntRange(0, 4).Draw(t, "samechange") == 0 {
+		// two workloads with the SAME connections towards DIFFERENT external ranges (same number of blocks): whatever diff
+		// keeps per group of equal connection values must not leak from one workload to the other
+		i := rapid.IntRange(0, len(a.Workloads)-1).Draw(t, "sc1")
+		j := rapid.IntRange(0, len(a.Workloads)-2).Draw(t, "sc2")
+		if j >= i {
+			j++
+		}
+		port := PPort{Proto: rapid.SampledFrom([]string{"", "TCP", "UDP"}).Draw(t, "scproto"), PortNum: rapid.SampledFrom([]int{80, 443, 53}).Draw(t, "scport")}
+		ing := rapid.Bool().Draw(t, "scdir")
+		pair := rapid.SampledFrom([][2]string{{"10.0.0.0/8", "172.16.0.0/12"}, {"10.1.0.0/16", "192.168.49.2/31"}, {"0.0.0.0/1", "128.0.0.0/1"}, {"10.1.2.0/24", "10.244.0.7/32"}}).Draw(t, "sccidrs")
+		for k, wi := range []int{i, j} {
+			x := &a.Workloads[wi]
+			if x.Labels == nil {
+				x.Labels = map[string]string{}
+			}
+			x.Labels["twin"] = fmt.Sprintf("t%d", k)
+			r := Rule{Peers: []Peer{{IPBlock: &IPBlock{CIDR: pair[k]}}}, Ports: []PPort{port}}
+			p := NetPol{Ns: x.Ns, Name: fmt.Sprintf("np-same%d", k), PodSel: Selector{MatchLabels: map[string]string{"twin": x.Labels["twin"]}}}
+			if ing {
+				p.PolicyTypes, p.Ingress = []string{"Ingress"}, []Rule{r}
+			} else {
+				p.PolicyTypes, p.Egress = []string{"Egress"}, []Rule{r}
+			}
+			a.NPs = append(a.NPs, p)
+		}
+	}
 	c := &C04Case{A: a}
 	if rapid.IntRange(0, 3).Draw(t, "independent") == 0 {
 		c.B = GenWorld(t, GenCfg{NoNamedRisk: true})
